@@ -48,7 +48,7 @@ def _assignments_agree(sol):
     return True
 
 
-def run(p, index, calls, solver_kw=None, tracked=(), clock_step=None, want_solutions=True):
+def run(p, index, calls, solver_kw=None, tracked=(), clock_step=None, want_solutions=True, later_problem=False):
     """calls: list of ("solve",) | ("another",) | ("another_var", i) | ("initialize",) | ("export",)
     index: {(schedule key, objective tuple): point id} from scenarios.from_problem.
     Returns dict(events=[...], solutions=[...], stdout=str)."""
@@ -132,6 +132,14 @@ def run(p, index, calls, solver_kw=None, tracked=(), clock_step=None, want_solut
                     solutions.append({"call": len(events), "sv": sv, "trace": PJ.to_trace(p, 0, sv, res),
                                       "json": json.loads(res.to_json(compact=True))})
             events.append({"e": "ret", "w": w if not raised else -1, "raised": raised})
+            if later_problem:
+                # another, unrelated problem (same task names) is created between two calls: a solver keeps working
+                # on the problem it was given
+                later_problem = False
+                import processscheduler as _ps
+                _ps.SchedulingProblem(name="LaterProblem", horizon=p["H"] + 3)
+                for tk in p["tasks"][:1]:
+                    _ps.FixedDurationTask(name=tk["name"], duration=1)
         # a solution that has been handed out is a value: later calls on the solver must not change it
         for idx, obj, snapshot in kept:
             if obj.to_json(compact=True) != snapshot and idx < len(events) and events[idx]["e"] == "ret":
